@@ -492,6 +492,14 @@ impl TSim {
     }
   }
 
+  /// Block the calling simulated thread for `ns` of virtual time. Time only
+  /// passes when every thread is blocked, so a sleeper lets timers (and the
+  /// pool tasks they wake) run concurrently with what it does next.
+  pub fn sleep(&self, me: usize, ns: u64) {
+    let mut t = self.shared.new_timer(std::time::Duration::from_nanos(ns));
+    self.block_on(me, &mut |cx| Pin::new(&mut t).poll(cx).is_ready());
+  }
+
   /// Pool worker loop body: take one ready task (a decision when several are
   /// ready) and poll it. Returns false when the pool has shut down.
   fn worker_step(self: &Arc<Self>, me: usize) -> bool {
@@ -697,6 +705,15 @@ pub fn harness_yield(site: &'static str) {
   if let Some(c) = crate::world::ctx() {
     if let Mode::Thread(ts, tid) = &c.mode {
       ts.harness_yield(*tid, site);
+    }
+  }
+}
+
+/// Simulated sleep (thread mode only; no-op elsewhere).
+pub fn harness_sleep_ms(ms: u64) {
+  if let Some(c) = crate::world::ctx() {
+    if let Mode::Thread(ts, tid) = &c.mode {
+      ts.sleep(*tid, ms * crate::world::MS);
     }
   }
 }
